@@ -638,6 +638,12 @@ def rule_sigops(ctx, repo, eng):
     facc = fi.params[1]
     loops = [n for n in ast.walk(fi.node) if isinstance(n, ast.For) and 'raw_iter()' in norm(n.iter)]
     if len(loops) != 1:
+        mat = [n for n in ast.walk(fi.node) if isinstance(n, (ast.ListComp, ast.GeneratorExp)) and any('raw_iter()' in norm(g.iter) for g in n.generators)]
+        mat = [n for n in mat if isinstance(n, ast.ListComp) or (isinstance(getattr(n, '_parent', None), ast.Call) and norm(n._parent.func) in ('list', 'tuple', 'sorted'))]
+        if mat and not loops:
+            r.violated('loop', common.site_of(fi, mat[0]), 'GetSigOpCount first collects the whole of raw_iter() (`%s`) and counts afterwards: a malformed push anywhere in the script raises before '
+                       'anything is counted, so the count is 0 instead of the operations up to the first malformed push' % norm(mat[0])[:70], sure=True)
+            return
         r.undecided('loop', fi.site, 'loop over raw_iter() not found')
         return
     lp = loops[0]
